@@ -578,7 +578,9 @@ theorem Inv.addTx {c : Cfg} {σ : St} (h : Inv c σ) (a : AddArgs) : Inv c (addT
   split; · exact h
   split; · exact h
   split; · exact h
-  next hlt hnd _ _ _ _ =>
+  split; · exact h
+  split; · exact h
+  next hlt hnd _ _ _ _ _ _ =>
   simp only
   apply Inv.pending
   have hDlt : ∀ x, x ∈ a.ref :: σ.dag → x < c.nRefs := by
@@ -796,7 +798,9 @@ theorem Inv2.addTx {c : Cfg} {σ : St} (h1 : Inv c σ) (h : Inv2 c σ) (a : AddA
   split; · exact h
   split; · exact h
   split; · exact h
-  next hnd _ _ _ _ =>
+  split; · exact h
+  split; · exact h
+  next hnd _ _ _ _ _ _ =>
   simp only
   apply Inv2.pending
   have hfr : ∀ s', completedIn σ.ledger s' a.ref = false := fun s' => h1.notCompleted_of_notInDag s' a.ref hnd
@@ -882,7 +886,9 @@ theorem addTx_cases (c : Cfg) (σ : St) (a : AddArgs) :
   split; · left; exact ⟨by simp, rfl⟩
   split; · left; exact ⟨by simp, rfl⟩
   split; · left; exact ⟨by simp, rfl⟩
-  next h1 h2 _ _ _ _ =>
+  split; · left; exact ⟨by simp, rfl⟩
+  split; · left; exact ⟨by simp, rfl⟩
+  next h1 h2 _ _ _ _ _ _ =>
   right
   refine ⟨rfl, h2, by omega, ?_, ?_⟩
   · simp only [saveEvent_admitted]; exact List.mem_cons_self
@@ -1423,6 +1429,8 @@ theorem noCtx_save {c : Cfg} {σa : St} (ev : Nat × EvType) (h : NoCtx σa) : N
 theorem Covered.addTx {c : Cfg} {σ : St} (h : Covered c σ) (a : AddArgs) :
     Covered c (addTx c σ a).1 ∧ Grows σ (addTx c σ a).1 ∧ (NoCtx σ → NoCtx (addTx c σ a).1) := by
   unfold Nuts.C14.addTx
+  split; · exact ⟨h, Grows.refl _, fun h => h⟩
+  split; · exact ⟨h, Grows.refl _, fun h => h⟩
   split; · exact ⟨h, Grows.refl _, fun h => h⟩
   split; · exact ⟨h, Grows.refl _, fun h => h⟩
   split; · exact ⟨h, Grows.refl _, fun h => h⟩
